@@ -27,6 +27,9 @@ def _one(args):
     import protofollow
     from sysharness import run_scenario
     res = run_scenario(sc, schedule, seed=seed)
+    for e in res.events:
+        if e[0] == "webapi" and e[1] == "exit" and e[3] is not None:
+            raise RuntimeError(f"harness client thread died of {e[3]} (infrastructure error)")
     vs = monitors.ALL[prop](res, sc) if prop in monitors.ALL else []
     extra = EXTRA_MONITORS.get(prop)
     if extra:
@@ -97,6 +100,10 @@ def run_many(ctx: Ctx, prop: str, jobs: list, res: SuiteResult, want_follow: boo
                 {"scenario": o["scenario"], "schedule": o["schedule"]}))
         res.sample({"scenario": o["scenario"], "schedule_len": len(o["schedule"]),
                     "outcome": o["outcome"], "features": o["features"]})
+    n_budget = res.histogram.get("outcome:aborted:budget", 0)
+    if res.evaluations >= 50 and n_budget > res.evaluations // 2:
+        raise RuntimeError(f"{n_budget} of {res.evaluations} runs exhausted the step budget: the harness "
+                           f"is not making progress (infrastructure error)")
     res.extra["proto_labels"] = sorted(labels)
     res.extra["proto_transition_coverage"] = f"{len(labels)}/{PROTO_LABELS_TOTAL}"
 
